@@ -316,12 +316,12 @@ nharness! {
     }
 }
 
-fn c13_poll_message_body(v5: bool) {
+fn c13_poll_message_body(v5: bool, lmax: usize) {
     use ntp_proto::verif::packet as ph;
     use ntp_proto::verif::packet::extension_fields::ExtField;
     sym_rng();
     let l: usize = kani::any();
-    kani::assume(l <= 32);
+    kani::assume(l <= lmax && lmax <= 32);
     let content: [u8; 32] = kani::any();
     let n: u8 = kani::any();
     kani::assume(n >= 1 && n <= 8);
@@ -368,7 +368,7 @@ fn c13_poll_message_body(v5: bool) {
     assert!(n_cookie == 0, "exactly one cookie per request");
     assert!(1 + n_ph == n as usize, "one field per requested cookie");
     assert!(p.poll() == poll(pollv), "poll exponent in the header");
-    kani::cover!(n == 8 && l == 32 && content[31] == 0x55, "eight cookies requested");
+    kani::cover!(n == 8 && l == lmax && content[lmax - 1] == 0x55, "eight cookies requested");
     kani::cover!(n == 1 && l == 0, "empty cookie, no placeholder");
     // not dropped: the drop glue of a Vec of fields of symbolic length and kind is a large loop
     core::mem::forget(p);
@@ -377,13 +377,13 @@ fn c13_poll_message_body(v5: bool) {
 nharness! {
     #[kani::unwind(12)]
     fn c13_poll_message_v4() {
-        c13_poll_message_body(false);
+        c13_poll_message_body(false, 32);
     }
 }
 
 nharness! {
     #[kani::unwind(12)]
     fn c13_poll_message_v5() {
-        c13_poll_message_body(true);
+        c13_poll_message_body(true, 8);
     }
 }
